@@ -422,7 +422,10 @@ impl World {
                 (St::Gone("build-panic"), "panic".to_string())
             },
             Ok(Ok(hs)) => (St::Hs(Box::new(hs)), "ok".to_string()),
-            Ok(Err(e)) => (St::Gone("build-err"), format!("{e:?}")),
+            Ok(Err(e)) => {
+                self.render_err(&e);
+                (St::Gone("build-err"), format!("{e:?}"))
+            },
         };
         // don't-care zones of the build expectation: zero-padded psk indices are a name-grammar
         // question (C13, not claimed); the random source is not one of the "named primitives"
@@ -450,6 +453,29 @@ impl World {
                     &site,
                     &format!("name={} result={}", nc.name, build_result),
                 );
+            }
+        }
+        // a boot that is wrong for exactly one reason has to name that reason
+        if let (Some(p), true, false) = (&proto, keys_regular, dont_care_build) {
+            let psk_ok = nc.psks.iter().all(|k| !k.at_boot || (k.idx as usize) < 10) && {
+                let mut seen = std::collections::BTreeSet::new();
+                nc.psks.iter().filter(|k| k.at_boot).all(|k| seen.insert(k.idx))
+            };
+            let mut causes: Vec<&str> = vec![];
+            if p.needs_local_static(nc.initiator) && nc.s_priv.is_none() {
+                causes.push("Prereq(LocalPrivateKey)");
+            }
+            if p.needs_remote_static(nc.initiator) && nc.rs_pub.is_none() {
+                causes.push("Prereq(RemotePublicKey)");
+            }
+            match nc.deny {
+                Some(crate::seam::Prim::Dh) => causes.push("Init(GetDhImpl)"),
+                Some(crate::seam::Prim::Hash) => causes.push("Init(GetHashImpl)"),
+                Some(crate::seam::Prim::Cipher) => causes.push("Init(GetCipherImpl)"),
+                _ => {},
+            }
+            if psk_ok && causes.len() == 1 && build_result != "ok" && build_result != "panic" && build_result != causes[0] {
+                self.flag(&["C12"], "build-error-names-another-cause", causes[0], &format!("name={} initiator={} result={}", nc.name, nc.initiator, build_result));
             }
         }
         if !expect_ok && (keys_regular || proto.is_none()) && matches!(build_result.as_str(), "Input" | "Decrypt" | "Dh") {
@@ -620,6 +646,46 @@ impl World {
     }
 
     /// Monitors evaluated after every op on a node: indicators (C11), remote static (C17).
+    /// The rest of the query surface, at whatever moment the driver asks: the Debug impls of the
+    /// state objects, and the raw split asked for twice on a live handshake (it must be stable,
+    /// equal the model's Split() once the handshake is over, and leave the session undisturbed -
+    /// the following messages are compared with the model as always).
+    /// Render an error the way an application would log it (Display must not panic either).
+    fn render_err(&mut self, e: &Error) {
+        if let Err(p) = guarded(|| format!("{e}").len()) {
+            self.flag(&["C10"], "panic", &format!("error-display/{e:?}"), &p);
+        }
+    }
+
+    fn deep_query(&mut self, node: &mut Node) {
+        let phase = node.st.phase();
+        let dbg = guarded(|| match &node.st {
+            St::Hs(h) => format!("{h:?}").len(),
+            St::Tr(t) => format!("{t:?}").len(),
+            St::Sl(t) => format!("{t:?}").len(),
+            St::Gone(_) => 0,
+        });
+        if let Err(p) = dbg {
+            self.flag(&["C10"], "panic", &format!("debug-fmt/{phase}"), &p);
+        }
+        let finished_split = node.shadow.as_ref().and_then(|s| if s.finished() { s.split } else { None });
+        if let St::Hs(hs) = &mut node.st {
+            match guarded(|| (hs.dangerously_get_raw_split(), hs.dangerously_get_raw_split())) {
+                Err(p) => self.flag(&["C10"], "panic", "raw-split", &p),
+                Ok((a, b)) => {
+                    if a != b {
+                        self.flag(&["C01", "C02"], "raw-split-unstable", "query", "two consecutive dangerously_get_raw_split() calls differ");
+                    }
+                    if let Some((k1, k2)) = finished_split {
+                        if a != (k1, k2) {
+                            self.flag(&["C01"], "raw-split-differs-from-model", "query", "dangerously_get_raw_split() is not Split() of the final chaining key");
+                        }
+                    }
+                },
+            }
+        }
+    }
+
     fn post_checks(&mut self, i: usize, node: &mut Node, what: &str) {
         let r = guarded(|| match &node.st {
             St::Hs(hs) => {
@@ -898,6 +964,7 @@ impl World {
                 let i = node as usize;
                 if i < self.nodes.len() {
                     let mut n = self.take(i);
+                    self.deep_query(&mut n);
                     self.post_checks(i, &mut n, "query");
                     self.put(i, n);
                 }
@@ -907,6 +974,18 @@ impl World {
                 for k in 0..count {
                     self.op_read(node as usize, Src::Garbage { len: len as u32, seed: seed.wrapping_add(k) }, Mutation::None, Buf::Ample, NonceSel::Auto);
                     if !self.viol.is_empty() && self.viol.len() > 64 {
+                        break;
+                    }
+                }
+            },
+            Op::RekeyBurst { node, count } => {
+                let peer = Self::peer(node as usize);
+                for _ in 0..count {
+                    self.op_rekey(node as usize, RekeyKind::Outgoing);
+                    if peer < self.nodes.len() {
+                        self.op_rekey(peer, RekeyKind::Incoming);
+                    }
+                    if self.viol.len() > 64 {
                         break;
                     }
                 }
@@ -935,13 +1014,27 @@ impl World {
             return;
         }
         let nc = self.cfg.nodes[i].clone();
-        let proto = match Proto::parse(&nc.name) {
-            Ok(p) => p,
-            Err(_) => return,
-        };
         let rng = self.nodes[i].rng.clone();
         self.call_id += 1;
         rng.begin_call(self.call_id, mix(i as u64, 0x4B47));
+        let proto = match Proto::parse(&nc.name) {
+            Ok(p) => p,
+            Err(_) => {
+                // a name only snow can parse (e.g. a DH nobody implements): key generation must
+                // answer with a key pair or an error, not a panic
+                let r = guarded(|| -> Result<usize, Error> {
+                    let params: snow::params::NoiseParams = nc.name.parse()?;
+                    let resolver = SimResolver::new(nc.backend, rng.clone(), None, nc.deny).with_deny_at(nc.deny_at);
+                    Ok(Builder::with_resolver(params, Box::new(resolver)).generate_keypair()?.public.len())
+                });
+                match r {
+                    Err(p) => self.flag(&["C10", "C12"], "panic", "keygen/unparsed-name", &format!("generate_keypair panicked: {p}")),
+                    Ok(Err(e)) => self.render_err(&e),
+                    Ok(Ok(_)) => {},
+                }
+                return;
+            },
+        };
         // RNG fault (as for ephemerals): the first draw is all zero - not a valid P-256 scalar;
         // the generated key pairs must still be usable
         if proto.dh == crate::refnoise::DhK::P256 && mix(nc.rng_seed, self.call_id) % 4 == 0 {
@@ -950,7 +1043,8 @@ impl World {
         }
         let r = guarded(|| -> Result<(snow::Keypair, snow::Keypair), Error> {
             let params: snow::params::NoiseParams = nc.name.parse()?;
-            let resolver = SimResolver::new(nc.backend, rng.clone(), None, if nc.deny == Some(crate::seam::Prim::Rng) { nc.deny } else { None });
+            // the node's resolver faults apply to key generation too
+            let resolver = SimResolver::new(nc.backend, rng.clone(), None, nc.deny).with_deny_at(nc.deny_at);
             let b = Builder::with_resolver(params, Box::new(resolver));
             let k1 = b.generate_keypair()?;
             let k2 = b.generate_keypair()?;
@@ -960,12 +1054,13 @@ impl World {
         let site = format!("keygen/{}", proto.dh.name());
         match r {
             Err(p) => {
-                self.flag(&["C10"], "panic", &site, &format!("generate_keypair panicked: {p}"));
+                self.flag(if nc.deny.is_some() { &["C10", "C12"] } else { &["C10"] }, "panic", &site, &format!("generate_keypair panicked: {p}"));
                 self.stats.aborted_by_panic += 1;
             },
             Ok(Err(e)) => {
-                // without a random source there is nothing to generate from
-                if nc.deny != Some(crate::seam::Prim::Rng) {
+                self.render_err(&e);
+                // with a resolver fault in force there may be nothing to generate from
+                if nc.deny.is_none() {
                     self.flag(&["C02"], "keygen-fails", &site, &format!("{e:?}"));
                 }
             },
@@ -1036,6 +1131,10 @@ impl World {
             Err(e) => {
                 self.trace.write_u64(1_000_000 + ecode(e) as u64);
                 self.class_trace.write_u64(1_000_000);
+                // every error a call returns is also rendered the way an application would log it
+                if let Err(p) = guarded(|| format!("{e}").len()) {
+                    self.flag(&["C10"], "panic", &format!("error-display/{e:?}"), &p);
+                }
                 format!("{e:?}")
             },
         };
@@ -2085,7 +2184,7 @@ impl World {
 
     // -------------------------------------------------------------------------------- other ops
 
-    fn op_setpsk(&mut self, i: usize, idx: u8, kind: PskKind) {
+    fn op_setpsk(&mut self, i: usize, idx: u64, kind: PskKind) {
         if i >= self.nodes.len() {
             return;
         }
@@ -2094,10 +2193,10 @@ impl World {
             PskKind::Configured => self.cfg.nodes[i]
                 .psks
                 .iter()
-                .find(|p| p.idx == idx)
+                .find(|p| p.idx as u64 == idx)
                 .map(|p| p.key.clone())
-                .unwrap_or_else(|| seeded_bytes(mix(idx as u64, 0x95C), 32)),
-            PskKind::Wrong => seeded_bytes(mix(idx as u64, 0xBAD5C), 32),
+                .unwrap_or_else(|| seeded_bytes(mix(idx, 0x95C), 32)),
+            PskKind::Wrong => seeded_bytes(mix(idx, 0xBAD5C), 32),
             PskKind::BadLen(l) => seeded_bytes(l as u64, l as usize),
         };
         if let St::Hs(hs) = &mut node.st {
@@ -2105,26 +2204,37 @@ impl World {
             let r = guarded(|| hs.set_psk(idx as usize, &key));
             match r {
                 Err(p) => {
-                    self.flag(&["C10"], "panic", &format!("set_psk/idx{}/len{}", idx.min(11), key.len()), &p);
+                    self.flag(&["C10"], "panic", &format!("set_psk/idx{}/len{}", idx.min(11), key.len().min(70_000)), &p);
                     self.stats.aborted_by_panic += 1;
                     node.st = St::Gone("panic");
                 },
                 Ok(r) => {
-                    let expect_ok = key.len() == 32 && (idx as usize) < 10;
+                    let expect_ok = key.len() == 32 && idx < 10;
                     self.trace.write_u64(r.is_ok() as u64);
-                    // which argument combinations set_psk accepts is not part of any property
-                    // (C10 only demands Ok-or-Err); the shadow follows a well-formed success
+                    if let Err(e) = &r {
+                        self.render_err(e);
+                    }
+                    // a well-formed key for a slot the pattern uses, before the handshake is
+                    // over, has to be taken: otherwise a PSK supplied late can never be used
+                    // (what set_psk does with other argument combinations is not part of any
+                    // property - C10 only demands Ok-or-Err)
+                    let needed_slot = node.shadow.as_ref().map_or(false, |sh| !sh.finished() && idx < 10 && sh.proto.psk_mods.contains(&(idx as u8)));
+                    if let (Err(e), true, true) = (&r, expect_ok, needed_slot) {
+                        self.flag(&["C12", "C07", "C02"], "set_psk-refuses-valid-key", &format!("set_psk/{}", if key.iter().all(|b| *b == 0) { "zero-key" } else if key.iter().all(|b| *b == 0xFF) { "ff-key" } else { "key" }), &format!("{e:?} idx={idx}"));
+                    }
                     if r.is_ok() && !expect_ok {
-                        // accepted something outside the documented domain: legal for C10. For an
-                        // over-long key the model assumes the one plausible permissive reading
-                        // (the first 32 bytes are used) and carries on, so that the property-level
-                        // checks (C08: parties that supplied different keys) still see the session;
-                        // anything else leaves the model blind for this node
+                        // accepted something outside the documented domain: legal for C10. For a
+                        // key of the wrong length the model assumes the one plausible permissive
+                        // reading (the first 32 bytes of a longer key; a shorter key padded with
+                        // zeros) and carries on, so that the property-level checks (C08: parties
+                        // that supplied different keys) still see the session; anything else
+                        // leaves the model blind for this node
                         self.stats.probe("set_psk-accepted-unusual-arguments");
-                        if key.len() > 32 && (idx as usize) < 10 {
+                        if idx < 10 {
                             if let Some(sh) = node.shadow.as_mut() {
                                 let mut k = [0u8; 32];
-                                k.copy_from_slice(&key[..32]);
+                                let n = key.len().min(32);
+                                k[..n].copy_from_slice(&key[..n]);
                                 sh.psks[idx as usize] = Some(k);
                             }
                         } else {
@@ -2223,6 +2333,7 @@ impl World {
                 }
             },
             Ok(Err(e)) => {
+                self.render_err(&e);
                 self.trace.write_u64(2);
                 self.stats.fault("early-conversion");
                 self.faults_in_run += 1;
@@ -2320,6 +2431,7 @@ impl World {
                 RekeyKind::ManualR(id) if id % 2 == 0 => t.rekey_responder_manually(&Self::manual_key(session, 1, id)),
                 RekeyKind::ManualR(id) => t.rekey_manually(None, Some(&Self::manual_key(session, 1, id))),
                 RekeyKind::ManualBoth(id) => t.rekey_manually(Some(&Self::manual_key(session, 0, id)), Some(&Self::manual_key(session, 1, id))),
+                RekeyKind::ManualNone => t.rekey_manually(None, None),
             })),
             St::Sl(t) => Some(guarded(|| match which {
                 RekeyKind::Outgoing => t.rekey_outgoing(),
@@ -2329,13 +2441,14 @@ impl World {
                 RekeyKind::ManualR(id) if id % 2 == 0 => t.rekey_manually(None, Some(&Self::manual_key(session, 1, id))),
                 RekeyKind::ManualR(id) => t.rekey_responder_manually(&Self::manual_key(session, 1, id)),
                 RekeyKind::ManualBoth(id) => t.rekey_manually(Some(&Self::manual_key(session, 0, id)), Some(&Self::manual_key(session, 1, id))),
+                RekeyKind::ManualNone => t.rekey_manually(None, None),
             })),
             _ => None,
         };
         match r {
             None => {},
             Some(Err(p)) => {
-                self.flag(&["C10"], "panic", "rekey", &p);
+                self.flag(&["C10", "C15"], "panic", "rekey", &p);
                 node.st = St::Gone("panic");
             },
             Some(Ok(())) => {
@@ -2364,6 +2477,7 @@ impl World {
                             trm.keys[0] = Self::manual_key(session, 0, id);
                             trm.keys[1] = Self::manual_key(session, 1, id);
                         },
+                        RekeyKind::ManualNone => {},
                     }
                 }
                 // key values shared between directions or sessions (ids 4-7): any (key, nonce)
